@@ -63,6 +63,11 @@ class C04(Prop):
                 sfx = rng.choice(["/zz", "[7]", "/..", "[*]", "/a", "[new()]", "/a/b", "[-9]", "[x]", "[", "]", "/*", "", "", ""])
                 xp = X.render(t, p, rng) + sfx
                 tag = "derived" if sfx else "resolves"
+                if not sfx and root == "dict" and isinstance(p[-1], str) and rng.random() < 0.35:
+                    # up to the parent and down again through the same key: still the same existing node (dict roots:
+                    # below a list root the '..' step re-resolves the found path against the item it is in and misses;
+                    # the statement does not say what '..' means there, so that is not demanded)
+                    xp, tag = xp + "/../" + p[-1], "resolves"
             else:
                 xp = X.gen_soup(rng)
                 tag = "soup"
@@ -77,7 +82,8 @@ class C04(Prop):
                 recs = C6.gen_recs(rng)
                 t = {"r": recs, "a": t}
                 kf, f, v = rng.choice(C6.FIELDS), rng.choice(C6.FIELDS), rng.choice(C6.LITS)
-                present = [str(r[kf]) for r in recs if kf in r and isinstance(r[kf], (str, int, float)) and not isinstance(r[kf], bool)]
+                present = [str(r[kf]) for r in recs if kf in r and isinstance(r[kf], (str, int, float)) and not isinstance(r[kf], bool)
+                           and str(r[kf]) != ""]      # an empty literal is read as false(): outside the statement
                 if present and rng.random() < 0.6:
                     v = rng.choice(present)        # a literal that occurs in the data (as text)
                     if rng.random() < 0.3 and v.lstrip("-").isdigit():
